@@ -22,7 +22,7 @@ _PLAIN_VALUES = [
     'auto', 'star', 'call', 'left', 'right', 'strict', 'identifier', 'all', 'block', 'none', 'line',
     'all+1', 'block-', 'line+1', '+', '-2', '', 'x', 'pos', 'kw_maybe', '<',
     (), (True,), ('line',), ('all', 'line'), ('line', 'all'), ('none', 'none'), (False, 'line-'), (3, 'x'), (1, 2, 3),
-    [], ['<'],
+    [], ['<'], ['is', 'not'], ['not in'], ['>='],        # lists: MUTABLE option objects (accepted by `op`)
 ]
 
 
@@ -66,9 +66,12 @@ class Domain:
 
     # ---- coding -------------------------------------------------------------------------------------------------
     def enc(self, v):
-        """value -> code (-1 when the value is not in the probe domain: always a disagreement with the model)"""
+        """value -> code BY VALUE (type and repr), for object probes by identity.  A value outside the probe domain
+        (e.g. a list option that drifted) is coded as '?repr': always a disagreement with the model and with any
+        earlier snapshot"""
         if _is_plain(v):
-            return self._by_key.get(_key(v), -1)
+            c = self._by_key.get(_key(v))
+            return c if c is not None else '?' + repr(v)[:60]
         return self._by_id.get(id(v), -1)
 
     def enc_opt(self, v, missing):
@@ -78,9 +81,23 @@ class Domain:
         """a dict of options -> [[name code, value code], ...] in dict order (unknown names coded -1)"""
         return [[self.name_code.get(k, -1), self.enc(v)] for k, v in d.items()]
 
-    def dec_kvs(self, kvs):
-        """[[name code, value code], ...] -> kwargs dict (codes are distinct by construction of the generators)"""
-        return {self.names[n]: self.values[v] for n, v in kvs}
+    def dec_kvs(self, kvs, shared=None):
+        """[[name code, value code], ...] -> kwargs dict (codes are distinct by construction of the generators).
+        Mutable values (lists) are never the domain's own objects: a fresh copy, or - with `shared` - the one object
+        the running program owns for that value (a caller that builds its option objects once and reuses them)."""
+        out = {}
+        for n, v in kvs:
+            val = self.values[v]
+            if isinstance(val, list):
+                if shared is None:
+                    val = list(val)
+                else:
+                    val = shared.setdefault(v, list(val))
+            out[self.names[n]] = val
+        return out
+
+    def mutable_codes(self):
+        return [i for i, v in enumerate(self.values) if isinstance(v, list)]
 
     def value_repr(self, i):
         v = self.values[i]
